@@ -141,13 +141,24 @@ def protoUnmarshal (b : Bytes) : Option RawCert := decCert (b.length + 1) {} b
 /-- `net.IPMask.Size()` ones for a 32-bit mask; 0 for a non-canonical mask. -/
 def maskOnes (m : Nat) : Nat := ((List.range 33).find? (fun k => maskOf k == m)).getD 0
 
+/-- address / mask pairs back to prefixes; the values are `uint32`s (4 address bytes). -/
 def unpairs : List Nat → List Prefix
-  | a :: m :: rest => ⟨⟨.v4, a⟩, maskOnes m⟩ :: unpairs rest
+  | a :: m :: rest => ⟨⟨.v4, a % 2 ^ 32⟩, maskOnes m⟩ :: unpairs rest
   | _ => []
+
+/-- an `int64` field as a mathematical integer (identity on the int64 range the decoder produces). -/
+def asInt64 (v : Int) : Int := uToInt64 (int64ToU v)
 
 inductive DecErr where
   | empty | proto | noDetails | oddIps | oddSubnets | pubkeyPresent | invalid (e : InvErr) | other
   deriving DecidableEq, Repr
+
+/-- the certificate built from the decoded details (fixed-width fields as their Go types). -/
+def certOfRaw (d : RawDetails) (publicKey signature : Bytes) : Cert :=
+  { version := 1, curve := d.curve % 2 ^ 32, name := d.name, networks := unpairs d.ips,
+    unsafeNetworks := unpairs d.subnets, groups := d.groups, isCA := d.isCA,
+    notBefore := asInt64 d.notBefore * nsPerSec, notAfter := asInt64 d.notAfter * nsPerSec, issuer := hexEnc d.issuer,
+    publicKey := publicKey, signature := signature }
 
 /-- `unmarshalCertificateV1(b, publicKey)`. -/
 def unmarshal (b : Bytes) (publicKey : Bytes) : Except DecErr Cert :=
@@ -162,11 +173,7 @@ def unmarshal (b : Bytes) (publicKey : Bytes) : Except DecErr Cert :=
       else if d.subnets.length % 2 != 0 then .error .oddSubnets
       else if publicKey.length > 0 && d.publicKey.length != 0 then .error .pubkeyPresent
       else
-        let c : Cert :=
-          { version := 1, curve := d.curve, name := d.name, networks := unpairs d.ips,
-            unsafeNetworks := unpairs d.subnets, groups := d.groups, isCA := d.isCA,
-            notBefore := d.notBefore * nsPerSec, notAfter := d.notAfter * nsPerSec, issuer := hexEnc d.issuer,
-            publicKey := if publicKey.length > 0 then publicKey else d.publicKey, signature := rc.signature }
+        let c := certOfRaw d (if publicKey.length > 0 then publicKey else d.publicKey) rc.signature
         match validateV1 c with
         | some e => .error (.invalid e)
         | none => .ok c
